@@ -104,7 +104,11 @@ func intact(v, last any) bool {
 			return false
 		}
 		if len(v) == 0 {
-			return true // empty slices carry no identity the statement can observe
+			// identity of an empty slice: its backing pointer (all zero-capacity slices coincide)
+			if cap(v) == 0 || cap(w) == 0 {
+				return cap(v) == 0 && cap(w) == 0
+			}
+			return &v[:1][0] == &w[:1][0]
 		}
 		return &v[0] == &w[0]
 	case map[string]any:
